@@ -182,4 +182,126 @@ theorem createChain_levels (v : Bytes) : ∀ (a : Addr) (f : Forest) (pm : Optio
     simp only [List.map_cons, createChain, chainOf, hrec]
     rw [createNode_level v _ _ (hl _ (by simp)).1 hvl]
 
+/-! ### decidable sufficient conditions for the chain hypotheses (audit: used by the non-vacuity witnesses of `Props/C15.lean`) -/
+
+theorem Level.printable_iff (l : Level) : l.Printable ↔
+    (IsIdent l.node.name ∧ IsIdent l.node.mod ∧ (∀ k ∈ keyLeaves l.node.children, IsIdent k.name ∧ LitOK k.value) ∧
+      (l.node.kind = .leaflist true → LitOK l.node.value) ∧ listPos l.sibs l.idx l.node < 2 ^ 32) :=
+  ⟨fun h => ⟨h.name, h.mod, h.keys, h.value, h.pos⟩, fun ⟨a, b, c, d, e⟩ => ⟨a, b, c, d, e⟩⟩
+
+instance (l : Level) : Decidable l.Printable := decidable_of_iff _ (Level.printable_iff l).symm
+
+theorem forall_lt_of_take_all (sibs : List DNode) (idx : Nat) (p : DNode → Bool) (h : (sibs.take idx).all p = true) :
+    ∀ j m, j < idx → sibs[j]? = some m → p m = true := by
+  intro j m hj hm
+  have hmem : m ∈ sibs.take idx := by
+    apply List.mem_of_getElem? (i := j)
+    rw [List.getElem?_take]
+    simp [hj, hm]
+  exact List.all_eq_true.mp h m hmem
+
+/-- Boolean form of `Level.Addressable` -/
+def Level.addressableB (l : Level) : Bool :=
+  decide l.KeysNodup &&
+  match cpredOf l with
+  | .none => (l.sibs.take l.idx).all fun m => !m.sameSchema l.node
+  | .keys _ => (l.sibs.take l.idx).all fun m =>
+      !m.sameSchema l.node || (keyLeaves l.node.children).any fun k => keyValue m k.name != some k.value
+  | .dot _ => (l.sibs.take l.idx).all fun m => !m.sameSchema l.node || m.value != l.node.value
+  | .pos _ =>
+    let pre := l.sibs.takeWhile fun x => !x.sameSchema l.node
+    let blk := (l.sibs.dropWhile fun x => !x.sameSchema l.node).takeWhile fun x => x.sameSchema l.node
+    decide (pre.length ≤ l.idx) && decide (l.idx < pre.length + blk.length)
+
+theorem Level.addressable_of_check (l : Level) (h : l.addressableB = true) : l.Addressable := by
+  unfold Level.addressableB at h
+  rw [Bool.and_eq_true] at h
+  obtain ⟨h1, h2⟩ := h
+  refine ⟨of_decide_eq_true h1, ?_⟩
+  split <;> rename_i heq <;> simp only [heq] at h2
+  · intro j m hj hm
+    simpa using forall_lt_of_take_all _ _ _ h2 j m hj hm
+  · intro j m hj hm hs
+    have := forall_lt_of_take_all _ _ _ h2 j m hj hm
+    simp only [hs, Bool.not_true, Bool.false_or, List.any_eq_true] at this
+    obtain ⟨k, hk, hne⟩ := this
+    exact ⟨k, hk, by simpa using hne⟩
+  · intro j m hj hm hs
+    have := forall_lt_of_take_all _ _ _ h2 j m hj hm
+    simpa [hs] using this
+  · simp only [Bool.and_eq_true, decide_eq_true_eq] at h2
+    refine ⟨l.sibs.takeWhile fun x => !x.sameSchema l.node,
+      (l.sibs.dropWhile fun x => !x.sameSchema l.node).takeWhile fun x => x.sameSchema l.node,
+      (l.sibs.dropWhile fun x => !x.sameSchema l.node).dropWhile fun x => x.sameSchema l.node, ?_, ?_, ?_, h2.1, h2.2⟩
+    · rw [List.append_assoc, List.takeWhile_append_dropWhile, List.takeWhile_append_dropWhile]
+    · intro x hx; simpa using List.all_eq_true.mp List.all_takeWhile x hx
+    · intro x hx; exact List.all_eq_true.mp List.all_takeWhile x hx
+
+/-- Boolean form of `SchemaOf` -/
+def schemaOfB (s : SNode) (l : Level) : Bool :=
+  s.kind == l.node.kind && schemaKeys s == (keyLeaves l.node.children).map (·.name) &&
+  ((keyLeaves l.node.children).all fun k =>
+    match findSchema s.children s.mod k.name with
+    | some ks => ks.kind == .leaf true
+    | none => false) &&
+  (match l.node.kind with
+   | .list _ => !(keyLeaves l.node.children).isEmpty
+   | _ => true)
+
+theorem schemaOf_of_check (s : SNode) (l : Level) (h : schemaOfB s l = true) : SchemaOf s l := by
+  unfold schemaOfB at h
+  simp only [Bool.and_eq_true, beq_iff_eq, List.all_eq_true] at h
+  obtain ⟨⟨⟨h1, h2⟩, h3⟩, h4⟩ := h
+  refine ⟨h1, h2, ?_, ?_⟩
+  · intro k hk
+    have := h3 k hk
+    split at this
+    · next ks hks => exact ⟨ks, hks, by simpa using this⟩
+    · cases this
+  · intro c hc
+    rw [hc] at h4
+    intro e
+    simp [e] at h4
+
+/-- Boolean form of `Conforms` -/
+def conformsB : List SNode → List Level → Bool
+  | _, [] => true
+  | sch, l :: rest =>
+    match findSchema sch l.node.mod l.node.name with
+    | some s => schemaOfB s l && conformsB s.children rest
+    | none => false
+
+theorem conforms_of_check : ∀ (ls : List Level) (sch : List SNode), conformsB sch ls = true → Conforms sch ls := by
+  intro ls
+  induction ls with
+  | nil => intro _ _; trivial
+  | cons l rest ih =>
+    intro sch h
+    unfold conformsB at h
+    split at h
+    · next s hs =>
+      rw [Bool.and_eq_true] at h
+      exact ⟨s, hs, schemaOf_of_check s l h.1, ih s.children h.2⟩
+    · cases h
+
+/-- Boolean form of `Level.TermNoKids` -/
+def Level.termNoKidsB (l : Level) : Bool :=
+  (match l.node.kind with
+   | .leaflist _ => false
+   | .leaf _ => false
+   | _ => true) || l.node.children.isEmpty
+
+theorem Level.termNoKids_of_check (l : Level) (h : l.termNoKidsB = true) : l.TermNoKids := by
+  intro hk
+  unfold Level.termNoKidsB at h
+  have hf : (match l.node.kind with
+      | .leaflist _ => false
+      | .leaf _ => false
+      | _ => true) = false := by
+    rcases hk with hk | ⟨k, hk⟩
+    · cases hkind : l.node.kind <;> simp [hkind, Kind.isLeaflist] at hk ⊢
+    · simp [hk]
+  rw [hf, Bool.false_or] at h
+  exact List.isEmpty_iff.mp h
+
 end LyModel.Path
